@@ -454,19 +454,11 @@ def check_c07(prog, rep, tier, cfg):
     asm_lines_typed(prog, rep, "C07.g")
     # C07.f toggler constants
     R = "C07.f"
-    pt = prog.body("pasfmt_core::rules::formatting_toggle::parse_toggle")
-    consts = set()
-    for nm in ("parse_toggle", "parse_toggle::{closure#0}", "parse_toggle::{closure#1}", "parse_pasfmt_directive_comment_contents", "parse_pasfmt_toggle"):
-        b = prog.body("pasfmt_core::rules::formatting_toggle::" + nm)
-        if b is None:
-            rep.fail(R, "anchor:" + nm, "formatting_toggle::%s not found" % nm)
-            continue
-        for c in b.calls():
-            for v in const_args(b, c):
-                consts.add((c.callee.split("::")[-1], v))
-    want = {("strip_prefix", "//"), ("strip_prefix", "(*"), ("strip_prefix", "{"), ("strip_prefix_icase", "pasfmt"), ("eq_ignore_ascii_case", "on"), ("eq_ignore_ascii_case", "off")}
-    rep.check(want <= consts and not {c for c in consts if c[0] in ("strip_prefix", "eq_ignore_ascii_case", "strip_prefix_icase")} - want, R, "toggle-constants",
-              "toggle recognition constants changed: %s" % sorted(consts), instance={"constants": sorted(map(str, want))})
+    vocab = toggle_vocabulary(prog)
+    want = {("//", "exact"), ("(*", "exact"), ("{", "exact"), ("pasfmt", "icase"), ("on", "icase"), ("off", "icase")}
+    rep.check(vocab == want, R, "toggle-vocabulary",
+              "the words the toggle recogniser compares comment text with, and how (exact / ignoring ASCII case), changed: unexpected %s, missing %s" % (sorted(vocab - want), sorted(want - vocab)),
+              instance={"vocabulary": sorted("%s:%s" % x for x in vocab)})
     b = prog.body("pasfmt_core::rules::formatting_toggle::parse_pasfmt_directive_comment_contents")
     if b is not None:
         seq = [c.callee.split("::")[-1] for c in b.calls() if (c.callee or "").startswith("pasfmt_core::rules::formatting_toggle::")]
@@ -576,6 +568,68 @@ def check_c01d(prog, rep):
     lexer_rules.blank_definition(prog, rep, "C01.e")
 
 
+EXACT_COMPARERS = ("strip_prefix", "strip_suffix", "starts_with", "ends_with", "eq", "ne", "find", "rfind", "contains", "split_once", "rsplit_once", "matches", "trim_start_matches",
+                   "trim_end_matches", "split", "cmp")
+
+
+def toggle_vocabulary(prog, mod="pasfmt_core::rules::formatting_toggle::"):
+    """{(word, 'exact' | 'icase')}: every string / character constant that the bodies of the toggle module (and the constant arrays
+    declared in it) hand to a comparison, with the kind of comparison — wherever in the module the comparison is written.
+    A module helper counts as case-insensitive when all comparisons in it (and in what it calls inside the module) are
+    eq_ignore_ascii_case."""
+    memo = {}
+
+    def cls_of(callee, depth=0):
+        nm = callee.split("::")[-1]
+        if nm == "eq_ignore_ascii_case":
+            return "icase"
+        if nm in EXACT_COMPARERS and not callee.startswith(mod):
+            return "exact"
+        if callee.startswith(mod) and depth < 4:
+            if callee in memo:
+                return memo[callee]
+            memo[callee] = None
+            subs = set()
+            for cb in [x for x in prog.bodies.values() if x.npath == callee or x.npath.startswith(callee + "::")]:
+                for c in cb.calls():
+                    k = cls_of(norm(c.t.get("resolved") or c.callee or ""), depth + 1)
+                    if k:
+                        subs.add(k)
+            memo[callee] = "icase" if subs == {"icase"} else ("exact" if subs else None)
+            return memo[callee]
+        return None
+    vocab = set()
+    for b in prog.bodies.values():
+        if not b.npath.startswith(mod):
+            continue
+        for c in b.calls():
+            callee = norm(c.t.get("resolved") or c.callee or "")
+            words = const_args(b, c)
+            if not words:
+                continue
+            k = cls_of(callee)
+            if k is None:
+                continue        # logging / formatting / construction, not a comparison
+            for w in words:
+                vocab.add((w, k))
+    for path, ca in prog.const_arrays.items():
+        if not path.startswith(mod):
+            continue
+        owner = path.rsplit("::", 1)[0]
+        kinds = set()
+        for cb in [x for x in prog.bodies.values() if x.npath == owner or x.npath.startswith(owner + "::")]:
+            for c in cb.calls():
+                k = cls_of(norm(c.t.get("resolved") or c.callee or ""))
+                if k and not const_args(cb, c):
+                    kinds.add(k)          # a comparison whose pattern is not a literal: fed from the array
+        for e in ca.get("elems", []):
+            w = e.get("str") if "str" in e else (chr(e["char"]) if "char" in e else None)
+            if w is not None:
+                for k in (kinds or {"unused"}):
+                    vocab.add((w, k))
+    return vocab
+
+
 def asm_lines_typed(prog, rep, R):
     """Inside parse_asm_instructions, the last event before every finish_logical_line (on every path from the entry or from the previous
     finish) is set_logical_line_type(AsmInstruction): otherwise a line of instructions is left untyped, is not marked by the asm ignorer
@@ -602,7 +656,10 @@ def asm_lines_typed(prog, rep, R):
                 # a call of one of this function's own closures: splice the closure's event sequence (straight-line closures only)
                 for cal in prog.callees_of_site(c):
                     cb = prog.body(cal)
-                    if cb is not None and cb.kind == "Closure" and cb.npath.startswith(b.npath + "::") and depth < 2:
+                    own_closure = cb is not None and cb.kind == "Closure" and cb.npath.startswith(b.npath + "::")
+                    # .. or of a small loop-free method of the parser (the closure turned into a method)
+                    small_method = cb is not None and cb.kind != "Closure" and cb.npath.startswith(P) and cb.npath != b.npath and not cb.loops() and len(cb.blocks) <= 40
+                    if (own_closure or small_method) and depth < 2:
                         sub = events_of_body(cb, depth + 1)
                         if sub:
                             order = sorted(sub, key=lambda x: len(cb.dom.get(x, ())))
@@ -660,9 +717,12 @@ def check_c01f(prog, rep, R="C01.f"):
         ev = slices.SliceEval(prog, b, is_content)
         mark = len(slices.VAR_READS)
         makers = [c for c in b.calls() if c.callee in ("alloc::string::String::with_capacity", "alloc::string::String::new")]
+        onego = [c for c in b.calls() if (c.callee or "") in ("alloc::slice::concat", "alloc::slice::join", "alloc::slice::<impl [T]>::concat", "alloc::slice::<impl [T]>::join")]
+        if not makers and len(onego) == 1:
+            makers = onego            # the new text is assembled in one go from an array of pieces
         if not rep.check(len(makers) == 1, R, "one-builder:" + short(name), "%s builds %d strings (one reviewed)" % (short(name), len(makers))):
             continue
-        pcs = slices.pieces_of(prog, b, makers[0], ev)
+        pcs = slices.pieces_of_concat(prog, b, makers[0], ev) if makers == onego else slices.pieces_of(prog, b, makers[0], ev)
         # trailing blanks may be cut where the property allows it: everywhere for C01 (blanks are not protected), for C02 only in line comments
         ok, desc, problems = slices.check_partition(b, pcs, ev, allow_trailing_trim=(not R.startswith("C02") or name.endswith("format_line_comment")))
         unstable = slices.unstable_var_reads(b, mark)
